@@ -228,3 +228,6 @@ TEXT["C07"]["level"] += (" The asynchronous sharding partial decoder - a differe
 TEXT["C17"]["level"] += (" Regions overhanging the array inside the grid extent are proved to be tiled as well (Props/C17Oob).")
 TEXT["C20"]["level"] += (" The sharding partial encoder (experimental partial encoding) is swept under faults for chains whose only top-level codec is sharding_indexed: every fault is an error, nothing panics, and a retry converges to the fault-free array (judged on decoded contents); the previous-or-intended clause is not claimed on that path.")
 TEXT["C20"]["note"] += " Known finding F-C20-K1: the sharding partial encoder's erase-then-write cases lose the shard when the write fails (experimental path; matched by the failing operation, so a different tear is still reported)."
+TEXT["C20"]["level"] += (" Props/C20PE states it for the encoder as a store-operation program: plans that publish in at most one store operation leave the shard untouched on every failed call and a retry converges (any number of reads, any failing set); the erase-then-write and two-write shapes are refuted by concrete witnesses.")
+TEXT["C08"]["level"] += (" The multi-key ranged get (get_partial_values, batched by key) is called on every store kind with present and absent keys and predicted request by request.")
+TEXT["C04"]["level"] += (" A third of the fill-heavy cases also run as sync/async twin requests (the asynchronous whole-chunk and multi-chunk writes decide about elision in their own copies of the code).")
